@@ -273,7 +273,12 @@ async fn do_arrive(c: &mut Conn, idx: &str, id: u64, blocking: bool, notify: boo
                     break;
                 }
                 Seen::Event(_) => {}
-                Seen::Frame(f) if f.h.id == id && f.h.notify == 0 => {
+                Seen::Frame(f) if f.h.notify == 0 && (f.h.id == id || !notify) => {
+                    // only one request can be unanswered here (parked handlers do not answer), so a frame
+                    // with a clear notify flag is the answer to this request whatever id it carries
+                    if f.h.id != id {
+                        fails.push(("offreader.response.id".to_string(), format!("{idx}: request {id} was answered with id {} (ec {})", f.h.id, f.h.ec)));
+                    }
                     if notify {
                         fails.push(("offreader.notify_answered".to_string(), format!("{idx}: notify request {id} got a response (ec {})", f.h.ec)));
                     }
@@ -329,7 +334,13 @@ async fn do_exit(c: &mut Conn, idx: &str, id: u64, cmd: Cmd) -> OpResult {
         match c.next(deadline).await {
             Seen::Event(SrvEvent::Exited(k)) if k == id => exited = true,
             Seen::Event(_) => {}
-            Seen::Frame(f) if f.h.id == id && f.h.notify == 0 => resp = Some(f),
+            Seen::Frame(f) if f.h.notify == 0 && !notify && resp.is_none() => {
+                if f.h.id != id {
+                    let sig = if cmd == Cmd::Panic { "offreader.panic.id" } else { "offreader.exit.id" };
+                    fails.push((sig.to_string(), format!("{idx}: handler {id} ended by {:?}; the response carries id {} (ec {})", cmd, f.h.id, f.h.ec)));
+                }
+                resp = Some(f)
+            }
             Seen::Frame(f) => c.stray.push(f),
             Seen::Timeout => {
                 fails.push(("offreader.exit.no_response".to_string(), format!("{idx}: handler {id} was told to {:?}; exited={} response={} within {:?}", cmd, exited, resp.is_some(), WATCHDOG)));
